@@ -242,7 +242,7 @@ def run(chk, replay):
     cap = 600 if chk.tier == "quick" else 8000
     chosen = util.select(scenarios, cap, chk.rng)
     perms = [(0, 1, 2), (1, 2, 0), (2, 0, 1), (0, 2, 1), (1, 0, 2), (2, 1, 0)]
-    fsets = [["u", "aff"], ["all"], ["cst"], ["aff", "w", "grid_level"]]
+    fsets = [["u", "aff"], ["all"], ["cst"], ["aff", "w", "grid_level"], ["w", "u"], ["cst", "aff", "u"]]
     for i, sc in enumerate(chosen):
         axes = perms[i % 6]
         serial = i % 2 == 1
@@ -276,3 +276,6 @@ def run(chk, replay):
         chk.violation("big-slice-above-1MB", v, {"big": True})
     elif info:
         chk.extra["big_slice"] = info
+    # the command line layer (spec/Cli.tla): mandoline's options, also typed with the value zero
+    from harness import cli
+    cli.phase(chk, "mandoline")
